@@ -318,6 +318,45 @@ def rule_G(ctx) -> None:
         if d is None or len(d.keys) != 1 or not isinstance(d.values[0], ast.Call):
             ctx.inconclusive("G1", f"mapping[{tag}]", "mapping dict not in the recognised form", T_BODY)
             continue
+        # G10: the handlers are bound methods of the object __mapping__ is called on, so the table has to be built for that
+        # object: returned as it is, or through a helper that hands back what it built on that call (never a table kept per class)
+        rets_mp = [r.value for r in ast.walk(mp) if isinstance(r, ast.Return) and r.value is not None]
+        if len(rets_mp) == 1 and rets_mp[0] is d:
+            ctx.proved("G10", f"mapping-built-per-object[{tag}]", T_BODY, "dict display returned directly")
+        elif len(rets_mp) == 1 and isinstance(rets_mp[0], ast.Call) and isinstance(rets_mp[0].func, ast.Attribute) and isinstance(rets_mp[0].func.value, ast.Name) \
+                and rets_mp[0].func.value.id == "self":
+            hname = rets_mp[0].func.attr
+            srv_ = ctx.repo.mod(M_SERVER)
+            q_ = f"ServiceBase.{hname}"
+            lazily = any(isinstance(a, ast.Lambda) and a.body is d for a in rets_mp[0].args)
+            if not srv_.has(q_):
+                ctx.inconclusive("G10", f"mapping-built-per-object[{tag}]", f"__mapping__ returns self.{hname}(...), which ServiceBase does not define", T_BODY)
+            else:
+                hf = srv_.func(q_)
+                params_ = [a.arg for a in hf.args.args[1:]]
+                from ..absint import Interp as _I
+                from ..sym import N as _N, show as _show
+                hpaths = _I(srv_).run(hf)
+                ctx.count(len(hpaths))
+                leak = None
+                for hp in hpaths:
+                    if hp.outcome != "return" or hp.value is None:
+                        continue
+                    v_ = hp.value
+                    built_here = (v_[0] == "call" and v_[1][0] == "n" and v_[1][1] in params_ and any(e.kind == "call" and e.data == v_ for e in hp.events)) or (v_[0] == "n" and v_[1] in params_)
+                    stored = [e for e in hp.events if e.kind == "store" and e.data[1] == v_ and e.data[0][0] in ("sub", "a")]
+                    if not built_here:
+                        leak = leak or f"returns {_show(v_)}"
+                    elif stored:
+                        leak = leak or f"keeps what it built in {_show(stored[0].data[0])}"
+                if leak:
+                    ctx.refuted("G10", f"mapping-built-per-object[{tag}]", f"{hname}:{leak}"[:100], srv_.loc(hf),
+                                f"__mapping__ hands the construction of its route table to ServiceBase.{hname}, which {leak}: the Handler entries hold bound methods of the object that built "
+                                "the table first, so a second object of the same service class is served by the first object's handlers", "two objects of one <Service>Base subclass served in one process")
+                else:
+                    ctx.proved("G10", f"mapping-built-per-object[{tag}]", srv_.loc(hf), f"through ServiceBase.{hname}, which returns what it built on that call" + (" (lazily)" if lazily else ""))
+        else:
+            ctx.inconclusive("G10", f"mapping-built-per-object[{tag}]", "the value __mapping__ returns is not the table it builds", T_BODY)
         hcall = d.values[0]
         hargs = hcall.args
         mcard = hargs[1].attr if len(hargs) > 1 and isinstance(hargs[1], ast.Attribute) else "?"
